@@ -301,7 +301,8 @@ def unit_cs(n):
 
 def _dispatch(item):
     kind, cfg = item
-    return {"acc": c01.unit_h1, "sym": unit_symmetric, "modes": unit_modes, "cs": unit_cs}[kind](cfg)
+    return {"acc": c01.unit_h1, "sym": unit_symmetric, "modes": unit_modes, "cs": unit_cs,
+            "jensen": unit_jensen}[kind](cfg)
 
 
 def replay(cex):
@@ -359,7 +360,207 @@ def run(chk):
                 continue
             items.append(("sym", (name, n)))
     items += [("cs", n) for n in (1, 2, 3)]
+    # (f) extended obligation: anisotropic models with a single orientation quadrature in quick,
+    # all of them in thorough
+    aniso = [n for n in fq_models() if n not in SPHERICAL]
+    single = ["cylinder", "ellipsoid", "core_shell_cylinder", "hollow_cylinder", "core_shell_ellipsoid", "barbell",
+              "capped_cylinder", "core_shell_bicelle"]
+    items += [("jensen", n) for n in (aniso if not chk.quick else [x for x in aniso if x in single])]
     if getattr(chk, "only", None):
         items = [it for it in items if chk.only in str(it)]
     pmap(c01._prebuild, sorted({c[0] for k, c in items if k != "cs"}))
     chk.add(pmap(_dispatch, items))
+
+
+# ---------------------------------------------------------------------------
+# (f) extended: <F>^2 <= <F^2> for the orientation-averaged (anisotropic) models, by a
+# Cauchy-Schwarz certificate over the addends of the model's own quadrature
+
+def _flat_sum(t):
+    """Children of a (nested) sum/difference, with signs folded in."""
+    out, stack = [], [(t, False)]
+    while stack:
+        e, neg = stack.pop()
+        k = e.decl().kind() if z3.is_app(e) else None
+        if k == z3.Z3_OP_ADD:
+            stack.extend((c, neg) for c in reversed(e.children()))
+        elif k == z3.Z3_OP_SUB:
+            ch = e.children()
+            stack.extend((c, not neg) for c in reversed(ch[1:]))
+            stack.append((ch[0], neg))
+        elif k == z3.Z3_OP_UMINUS:
+            stack.append((e.arg(0), not neg))
+        else:
+            out.append(-e if neg else e)
+    return out
+
+
+QUAD_MIN = 8     # a sum with at least this many addends is a quadrature accumulation
+
+
+def _expand(t, budget):
+    """Addends of a term: distribute products over *quadrature* sums (sums with many
+    addends, top level and nested); small sums such as (sld - sld_solvent) stay atomic."""
+    if budget[0] <= 0:
+        raise OverflowError("too many addends")
+    if z3.is_app(t):
+        k = t.decl().kind()
+        if k in (z3.Z3_OP_ADD, z3.Z3_OP_SUB):
+            parts = _flat_sum(t)
+            if len(parts) >= QUAD_MIN:
+                out = []
+                for c in parts:
+                    out.extend(_expand(c, budget))
+                return out
+        elif k == z3.Z3_OP_UMINUS:
+            return [-x for x in _expand(t.arg(0), budget)]
+        elif k == z3.Z3_OP_MUL:
+            ch, stack = [], list(reversed(t.children()))
+            while stack:                      # factors through nested products
+                e = stack.pop()
+                if z3.is_app(e) and e.decl().kind() == z3.Z3_OP_MUL:
+                    stack.extend(reversed(e.children()))
+                else:
+                    ch.append(e)
+            for i, c in enumerate(ch):
+                if z3.is_app(c) and c.decl().kind() in (z3.Z3_OP_ADD, z3.Z3_OP_SUB) \
+                        and len(_flat_sum(c)) >= QUAD_MIN:
+                    rest = ch[:i] + ch[i + 1:]
+                    out = []
+                    for x in _expand(c, budget):
+                        out.extend(_expand(z3.Product(rest + [x]) if rest else x, budget))
+                    return out
+        elif k == z3.Z3_OP_DIV:
+            num = _expand(t.arg(0), budget)
+            if len(num) > 1:
+                return [x / t.arg(1) for x in num]
+    budget[0] -= 1
+    return [t]
+
+
+def unit_jensen(name):
+    """F1 = sum_k a_k, F2 = sum_k b_k (addends of the model's own orientation quadrature, in
+    accumulation order).  Certificate: constants c_k >= 0 with a_k^2 = c_k b_k for all parameter
+    values (solver lemma per addend, 1e-9 relative for the round-off of c_k) and sum c_k <= 1;
+    then F1^2 <= (sum c_k)(sum b_k) <= F2 by Cauchy-Schwarz."""
+    label = "jensen/%s" % name
+    u = Unit(label, timeout_ms=20000)
+    km = KModel.get(name)
+    info = km.info
+    u.functions("Fq of %s (IR, interpreted incl. its Gauss quadrature loops; special functions uninterpreted)" % name)
+    q = z3.Real("q")
+    hold = {}
+
+    def fn():
+        it = interp.Interp(km.mod, mode="sym", decide=symx.current().decide, stubs=_special_stubs(km),
+                           concretize=symx.current().concretize_int, max_steps=6000000)
+        args, syms, cons = _args(km, info.parameters.iq_parameters, it, True)
+        it.region("F", {})
+        for c in cons:
+            symx.current().assume(c, check=False)
+        it.call("Fq", [q, Ptr("F", 0), Ptr("F", 8)] + args)
+        hold["syms"] = syms
+        return rat(it.mem["F"][0]), rat(it.mem["F"][8])
+
+    ex = symx.Explorer(timeout_ms=20000, max_paths=8, abstract=True)
+    try:
+        paths = ex.explore(fn, [q > 0])
+    except Exception as e:
+        u.note("jensen certificate not attempted for %s: %r" % (name, e))
+        return u.r
+    u.absorb(ex, paths)
+    decided = True
+    for p in paths:
+        if p.cut or p.exc is not None:
+            u.note("jensen %s: path not encoded (%s)" % (name, p.cut or repr(p.exc)))
+            decided = False
+            continue
+        F1, F2 = p.result
+        try:
+            a = _expand(F1, [20000])
+            b = _expand(F2, [20000])
+        except OverflowError:
+            u.note("jensen %s: more than 20000 addends, not attempted" % name)
+            decided = False
+            continue
+        if len(a) != len(b) or not a:
+            u.note("jensen %s: %d addends of F1 vs %d of F2: no certificate" % (name, len(a), len(b)))
+            decided = False
+            continue
+        H = p.constraints()
+        cs, failed = [], None
+        habs = None
+        for k, (ak, bk) in enumerate(zip(a, b)):
+            fa, fb = kharness.fingerprint(ak), kharness.fingerprint(bk)
+            if fa is None or fb is None or fb == 0:
+                failed = (k, "fingerprint")
+                break
+            ck = fa * fa / fb
+            cs.append(ck)
+            c = symx.rat(ck)
+            tol = symx.rat(1e-9)
+            lhs, rhs = ak * ak, c * bk
+            diff = lhs - rhs
+            phi = z3.And(diff <= tol * z3.If(rhs >= 0, rhs, -rhs), -diff <= tol * z3.If(rhs >= 0, rhs, -rhs))
+            res, m, _s = u.solve(symx.abstract_ufs(H + [z3.Not(phi)]), timeout_ms=10000)
+            u.r["obligations"] += 1
+            if res == "unsat":
+                u.r["discharged"] += 1
+                continue
+            u.r["obligations"] -= 1
+            failed = (k, res, m)
+            break
+        if failed is None and cs:
+            total = sum(cs)
+            ok = min(cs) >= -1e-12 and total <= 1 + 1e-9
+            u.note("jensen %s: %d addends, sum of Cauchy-Schwarz constants %.12g -> %s"
+                   % (name, len(cs), total, "certificate complete" if ok else "constants do not sum to <= 1"))
+            if ok:
+                u.r["obligations"] += 1
+                u.r["discharged"] += 1
+                continue
+            failed = (-1, "sum", None)
+        decided = False
+        # no certificate: look for a real witness; only a reproduced one is reported
+        info_w = _jensen_witness(name, failed[2] if len(failed) > 2 else None, hold.get("syms", {}))
+        if info_w["reproduced"]:
+            info_w["obligation"] = "jensen-certificate"
+            u.r["cex"].append(info_w)
+        else:
+            u.note("jensen %s: no certificate (addend %s: %s) and no numeric witness: undecided" % (name, failed[0], failed[1]))
+    return u.r
+
+
+def _jensen_witness(name, m, syms):
+    info = core.load_model_info(name)
+    model = core.build_model(info, dtype="double", platform="dll")
+    base = {}
+    for pid, s in syms.items():
+        if m is not None and isinstance(s, z3.ExprRef) and not z3.is_rational_value(s):
+            try:
+                v = float(symx.model_float(m, s))
+                if np.isfinite(v) and abs(v) < 1e6:
+                    base[pid] = v
+            except Exception:
+                pass
+    qs = np.logspace(-3, 0, 120)
+    kern = model.make_kernel([qs])
+    worst, arg = 0.0, None
+    trials = [dict(base), {}]
+    for p in info.parameters.kernel_parameters:         # exercise parameters whose default is 0
+        if p.default == 0 and p.type != "orientation" and p.length == 1:
+            for val in (1.0, 4.0, 8.0):
+                trials.append({p.id: val})
+    for pars in trials:
+        try:
+            with np.errstate(all="ignore"):
+                F1, F2, R, Vs, ratio = direct_model.call_Fq(kern, dict(pars))
+        except Exception:
+            continue
+        ex_ = (F1 ** 2 - F2) / np.maximum(np.abs(F2), 1e-300)
+        ex_ = np.where(np.isfinite(ex_), ex_, 0.0)
+        if ex_.max() > worst:
+            worst, arg = float(ex_.max()), (dict(pars), float(qs[int(ex_.argmax())]))
+    return {"reproduced": bool(worst > 1e-9), "key": "C14/jensen/%s" % name,
+            "what": "%s: <F>^2 exceeds <F^2> by a relative %.3g at %r on the real DLL" % (name, worst, arg),
+            "inputs": {"model": name, "witness": arg}, "block": None}
